@@ -11,7 +11,7 @@ from vp.core import alphabet as ab
 from vp.core.quiet import quiet
 
 INTERPS = [("Quaternion", 1), ("Quaternion", 2), ("Quaternion", 3), ("SE3", 1), ("R12", 1), ("R12", 2)]
-CONS = [None, [1, 2], [0, 1, 2], [1, 2, 4, 5], [0, 1, 2, 3, 4, 5]]
+CONS = [None, [1, 2, 4, 5], [0, 1, 2], [1, 2], [0, 1, 2, 3, 4, 5]]   # order: a short prefix has force and moment constraints
 LENGTH = 2.0
 EI = (5.0, 1.3, 2.1)
 FI = (0.7, 2.0, 3.1)
